@@ -97,6 +97,11 @@ func scenariosFor(prop string) []scn {
 		// two chained processors, the first leaves a hole of adjacent filtered / dead-lettered records inside one batch
 		both(flowParams{Sources: 1, Records: 6, Batch: 6, Dests: 1, AckMenu: onlyOK, Procs: []procParam{{ID: "p1", Kinds: []string{"p", "f", "f", "p", "p", "p"}}, {ID: "p2"}}}, 1, 2)
 		both(flowParams{Sources: 1, Records: 6, Batch: 6, Dests: 2, AckMenu: onlyOK, Procs: []procParam{{ID: "p1", Kinds: []string{"p", "e", "e", "p", "f", "p"}}, {ID: "p2", Kinds: []string{"p", "p", "p", "f", "p", "p"}}}}, 1, 2)
+		// the second processor rejects the records on both sides of one the first processor filtered (its error indices are
+		// adjacent in ITS input, not in the batch)
+		both(flowParams{Sources: 1, Records: 4, Batch: 4, Dests: 1, AckMenu: onlyOK, Procs: []procParam{{ID: "p1", Kinds: []string{"p", "f", "p", "p"}}, {ID: "p2", Kinds: []string{"e", "p", "e", "p"}}}}, 1, 2)
+		// a processor with a condition answers short: records that do not match lie behind the first unanswered matching one
+		both(flowParams{Sources: 1, Records: 5, Batch: 5, Dests: 1, AckMenu: onlyOK, NoMatch: []int{2, 4}, Procs: []procParam{{ID: "pp", Kinds: []string{"p", "s", "p", "p", "p"}, Cond: "match"}}}, 1, 2)
 	}
 	switch prop {
 	case "SMOKE":
